@@ -45,7 +45,7 @@ class C01Machine(Machine):
         "probe_equals_prefix", "probe_one_short", "split_delivery", "dup_rejected",
         "confluence_group", "chain_parts", "multi_char_delimiter", "non_bmp_probe_matched",
         "piece_carrier_canonical", "piece_carrier_synonym", "piece_carrier_via_uri",
-        "bulk_via_ctor", "bulk_via_epm", "bulk_via_priority", "bulk_via_reverse", "large_owner_map",
+        "bulk_via_ctor", "bulk_via_epm", "bulk_via_priority", "bulk_via_reverse", "large_owner_map", "derived_view_sub", "derived_view_chain_self",
     ]
 
     @classmethod
@@ -159,6 +159,13 @@ class C01Machine(Machine):
             if rng.random() < cfg["p_dup"]:
                 later.append({"op": "dup", "record": r, "schedule": k,
                               "via": "add_prefix" if rng.random() < 0.5 else "add_record"})
+        tail = []
+        if rng.random() < 0.3:
+            allp = [r["prefix"] for r in recs] + [x for r in recs for x in r["prefix_synonyms"]]
+            tail.append({"op": "derived_view", "kind": "sub", "schedule": k,
+                         "prefixes": [p for p in allp if rng.random() < 0.6]})
+        if rng.random() < 0.2:
+            tail.append({"op": "derived_view", "kind": "chain_self", "schedule": k})
         # interleave the later pieces at seeded positions after their head
         for piece in later:
             key = piece["prefix"] if "prefix" in piece else piece["record"]["prefix"]
@@ -170,7 +177,7 @@ class C01Machine(Machine):
             )
             pos = rng.randint(head_pos + 1, len(steps))
             steps.insert(pos, piece)
-        return steps
+        return steps + tail
 
     @staticmethod
     def simplify_op(op):
@@ -236,6 +243,34 @@ class C01Machine(Machine):
                     raise Violation(PROP, "order_dependent_answer", "schedules",
                                     {"schedule": n, "diff": observe.diff(a, b)})
             return {"confluence": len(self.finals)}
+        if kind == "derived_view":
+            # "for every converter": a converter derived from the current one must obey the same rule
+            # over the owner map it denotes (sub-converter: the records named; chain of itself: all)
+            if self.conv is None:
+                return {"skipped": True}
+            base, base_owners = self.conv, self.owners
+            if op["kind"] == "sub":
+                derived = base.get_subconverter(list(op["prefixes"]))
+                # which records it selected is C09's business; C01 is judged over the URI prefixes that
+                # the derived converter's own records register
+                owners = OwnerMap()
+                for r in derived.records:
+                    for u in [r.uri_prefix, *r.uri_prefix_synonyms]:
+                        owners.register(u, r.prefix)
+                site = "get_subconverter"
+            else:
+                derived = c.chain([base])
+                owners = OwnerMap()
+                owners.owners = dict(base_owners.owners)
+                site = "chain"
+            self.conv, self.owners = derived, owners
+            try:
+                self.focus = []
+                self._check(site)
+            finally:
+                self.conv, self.owners = base, base_owners
+            self.probe("derived_view_" + op["kind"])
+            return {"derived_view": op["kind"], "owners": len(owners.owners)}
         if kind == "ctor":
             self._new_schedule()
             via = op.get("via", "ctor")
